@@ -516,4 +516,7 @@ def install(it):
     A(r'std::task::RawWaker::new', m_extern('raw-waker'))
     A(r'std::task::RawWakerVTable::new', m_extern('vtable'))
     A(r"std::task::Context::<'_>::from_waker", m_extern('context'))
+    A(r"std::task::Context::<'_>::waker", m_extern('waker'))
+    A(r'<std::task::Waker as std::clone::Clone>::clone', m_extern('waker'))
+    A(r'std::task::Waker::(wake|wake_by_ref)', lambda it, a, ty, c: UNIT)
     A(r'<std::boxed::Box<.*> as (tokio::io::Async\w+|futures::\w+|std::future::Future)>::\w+', m_box_forward)
